@@ -106,3 +106,21 @@ func VH_C15_List() {
 	}
 	vreach("end")
 }
+
+// C15 H4: a zero-length cue with the float64 steps encoded exactly (IEEE theory, cvc5): for the NTSC/PAL quadruples
+// and every instant t of the first 2 s (at 1 ns; the rounding pattern does not depend on the magnitude) a cue [t,t)
+// does not come out with its start after its end - which is what happens when the two boundaries are not rounded the
+// same way. (Monotonicity for t1 < t2 is left to the relaxed-real harness above: proving it for the exact
+// multiplication is out of the solvers' reach - cvc5 and z3 answer unknown after 60 s.)
+func VH_C15_OrderExact() {
+	vsolver("cvc5")
+	qs := vc15Quads()
+	q := qs[[]int{3, 8, 0}[choose(vbound("quadruples", 2, 3))]] // two with a fractional intercept, one with intercept 0
+	t := nondetInt64(0, 1<<31-4)
+	it := &Item{StartAt: time.Duration(t), EndAt: time.Duration(t)}
+	s := &Subtitles{Items: []*Item{it}}
+	vreach("pre")
+	s.ApplyLinearCorrection(time.Duration(q.a1), time.Duration(q.d1), time.Duration(q.a2), time.Duration(q.d2))
+	vassert(it.StartAt <= it.EndAt, "C15 exact: a zero-length cue keeps start <= end")
+	vreach("end")
+}
